@@ -39,7 +39,7 @@ def gen_system(rnd):
     for mi in range(rnd.randint(1, 4)):
         if rnd.random() < 0.7:
             L = rnd.randint(1, 6)
-            start = rnd.choice([1, 1, 10, 45])
+            start = rnd.choice([1, 1, 10, 45, 0, 0])
             res = []
             r = start
             for i in range(L):
